@@ -120,6 +120,9 @@ type Case struct {
 	FlipBit  int
 	TBS      []byte
 	OtherTBS []byte
+	// SlotDates: dates carried by the slot certificate itself (must not influence the chain check):
+	// zero | now | past (36 h ago, inside an expired device certificate's window) | future (in 36 h)
+	SlotDates string
 }
 
 var (
@@ -192,6 +195,7 @@ func genCase(t *rapid.T) Case {
 		c.Issuer, c.Validity, c.Pool = "rootA", "ok", []string{"rootB", "rootA"}
 		c.Algo = rapid.IntRange(3, 6).Draw(t, "focusAlgo")
 	}
+	c.SlotDates = rapid.SampledFrom([]string{"zero", "now", "past", "future"}).Draw(t, "slotDates")
 	c.TBS = rapid.SliceOfN(rapid.Byte(), 1, 120).Draw(t, "tbs")
 	h, _ := labelHash(x509.SignatureAlgorithm(c.Algo))
 	if h == "" || h == "any" {
@@ -344,7 +348,7 @@ func buildSignature(c Case) (tbs, sig []byte, err error) {
 
 func exec(c Case) (vh.Outcome, error) {
 	algo := x509.SignatureAlgorithm(c.Algo)
-	out := vh.Outcome{Classes: []string{"kind=" + c.Kind, fmt.Sprintf("algo=%d", c.Algo), "issuer=" + c.Issuer, "validity=" + c.Validity}}
+	out := vh.Outcome{Classes: []string{"kind=" + c.Kind, fmt.Sprintf("algo=%d", c.Algo), "issuer=" + c.Issuer, "validity=" + c.Validity, "slotdates=" + c.SlotDates}}
 	tbs, sig, err := buildSignature(c)
 	if err != nil {
 		return out, nil
@@ -360,6 +364,14 @@ func exec(c Case) (vh.Outcome, error) {
 	}
 	chainOK := inPool && c.Validity == "ok"
 	slot := &x509.Certificate{SignatureAlgorithm: algo, RawTBSCertificate: tbs, Signature: sig}
+	switch c.SlotDates {
+	case "now":
+		slot.NotBefore, slot.NotAfter = time.Now().Add(-time.Hour), time.Now().Add(time.Hour)
+	case "past":
+		slot.NotBefore, slot.NotAfter = time.Now().Add(-36*time.Hour), time.Now().Add(-30*time.Hour)
+	case "future":
+		slot.NotBefore, slot.NotAfter = time.Now().Add(36*time.Hour), time.Now().Add(40*time.Hour)
+	}
 	at := yubiattest.NewAttestorWithCAPool(pool)
 	var aerr error
 	if perr := vh.Catch(func() { aerr = at.Attest(f9, slot) }); perr != nil {
@@ -393,7 +405,7 @@ func exec(c Case) (vh.Outcome, error) {
 	return out, nil
 }
 
-const rule = "the harness owns the device RSA private key and signs arbitrary encoded messages (sig = EM^d mod N): correct form 1 (with NULL) and form 2 (without) for SHA-1/256/384/512; one byte replaced at a position drawn per class (00, 01, first / last / inner padding byte, separator, identifier, digest); shortened padding with shifted tail and garbage; short EM with 0..7 padding bytes; identifier of another hash; digest of other data; single-bit flips of signature and body; arbitrary signature bytes; genuine ECDSA signature under a non-RSA device key. Crossed with every signature-algorithm label 0..20, device key sizes 1024/1025/1031/1536/2047/2048 (3072/4096 in thorough), device certificate issued by a pool root / by a CA outside the pool / self-signed / expired / not yet valid, pools of 1..3 roots. Oracle: the harness recomputes sig^e mod N itself; for *WithRSA SHA labels Attest = nil iff chain valid now and EM is form 1 or form 2 of the label's digest; DSA/ECDSA labels only-if; everything else must be refused. Non-trivial: every case except 'everything valid, form 1'."
+const rule = "the harness owns the device RSA private key and signs arbitrary encoded messages (sig = EM^d mod N): correct form 1 (with NULL) and form 2 (without) for SHA-1/256/384/512; one byte replaced at a position drawn per class (00, 01, first / last / inner padding byte, separator, identifier, digest); shortened padding with shifted tail and garbage; short EM with 0..7 padding bytes; identifier of another hash; digest of other data; single-bit flips of signature and body; arbitrary signature bytes; genuine ECDSA signature under a non-RSA device key. Crossed with every signature-algorithm label 0..20, device key sizes 1024/1025/1031/1536/2047/2048 (3072/4096 in thorough), device certificate issued by a pool root / by a CA outside the pool / self-signed / expired / not yet valid, pools of 1..3 roots, slot certificate dated now / inside an expired device certificate's window / in the future / not at all (the chain must be judged at the current time). Oracle: the harness recomputes sig^e mod N itself; for *WithRSA SHA labels Attest = nil iff chain valid now and EM is form 1 or form 2 of the label's digest; DSA/ECDSA labels only-if; everything else must be refused. Non-trivial: every case except 'everything valid, form 1'."
 
 func TestC06Attest(t *testing.T) {
 	vh.Run(t, vh.Spec[Case]{Property: "C06", Name: "TestC06Attest", Rule: rule, Gen: genCase, Exec: exec})
@@ -437,6 +449,27 @@ func TestC06PositionSweep(t *testing.T) {
 			c := Case{DevKey: s.DevKey, Issuer: "rootA", Validity: "ok", Pool: []string{"rootA"}, Algo: algoOf[s.Hash], Kind: "replace",
 				EMHash: s.Hash, Form: s.Form, Pos: s.Pos, NewByte: int(orig) ^ s.Delta, TBS: tbs}
 			return exec(c)
+		}}, cases)
+}
+
+// TestC06ChainTime: device certificate validity x dates of the slot certificate, everything else valid.
+func TestC06ChainTime(t *testing.T) {
+	var cases []Case
+	tbs := []byte("slot certificate body")
+	for _, validity := range []string{"ok", "expired", "future"} {
+		for _, sd := range []string{"zero", "now", "past", "future"} {
+			for _, algo := range []int{3, 4, 5, 6} {
+				cases = append(cases, Case{DevKey: "rsa1024b", Issuer: "rootA", Validity: validity, Pool: []string{"rootA"}, Algo: algo, Kind: "form1", Form: 1,
+					EMHash: map[int]string{3: "sha1", 4: "sha256", 5: "sha384", 6: "sha512"}[algo], TBS: tbs, SlotDates: sd})
+			}
+		}
+	}
+	vh.Enumerate(t, vh.Spec[Case]{Property: "C06", Name: "TestC06ChainTime", Exhaustive: true,
+		Rule: "device certificate {valid, expired, not yet valid} x slot certificate dated {not at all, now, inside the expired window, inside the future window} x 4 hashes with a genuine signature (48 points): accepted iff the device certificate is valid at the current time, whatever dates the slot certificate carries",
+		Exec: func(c Case) (vh.Outcome, error) {
+			o, err := exec(c)
+			o.NonTrivial = true
+			return o, err
 		}}, cases)
 }
 
